@@ -50,7 +50,7 @@ def gen(tier, seed, chunk, nch):
     nrand = (20000 if tier == "quick" else 300000) // nch
     maxlen = 5 if tier == "quick" else 7
     for k in range(nrand):
-        d = FAM[rng.randrange(len(FAM))] if rng.random() < 0.85 else optgen.rand_decl(rng)
+        d = FAM[rng.randrange(len(FAM))] if rng.random() < 0.75 else optgen.rand_decl(rng, groups=True)
         pool = optgen.flat_pool(optgen.token_pool(d))
         benign = optgen.benign_tokens(d)
         # the token of interest at a random position among benign fillers
@@ -66,7 +66,10 @@ def gen(tier, seed, chunk, nch):
             else:
                 argv.append(rng.choice(benign))
                 classes.append("benign")
-        cases.append({"decl": d, "argv": argv, "classes": classes})
+        case = {"decl": d, "argv": argv, "classes": classes}
+        if rng.random() < 0.15:
+            case["mode"] = "V"   # parse(std::vector<user_input>) instead of parse(argc, argv)
+        cases.append(case)
     return cases
 
 
@@ -80,7 +83,8 @@ def evaluate(case, lines, S):
         S.inconc.append("no parse line")
         return
     d, argv = case["decl"], case["argv"]
-    kind, suffix, desc, ex, ob = optoracle.judge(d, {}, argv, line)
+    kind, suffix, desc, ex, ob = optoracle.judge(d, {}, argv, line, case.get("mode", "A"))
+    S.counters["mode:" + case.get("mode", "A")] += 1
     for c in set(case.get("classes", [])):
         S.counters["class:" + c] += 1
     if ob.exc is None:
